@@ -3,7 +3,7 @@
    reported in error. *)
 From LC Require Import Lib.Bytes Lib.Lex Lib.Fields Lib.PathM Gen.Consts
   Model.MountInfo Model.FsTree Model.Kernel Model.Layers Cases.Verdict Cases.LC Cases.C08
-  Proofs.MonadP Proofs.PathP Proofs.FsGrowP Proofs.PlainRunP Proofs.LayerMapP Proofs.LayerStateP.
+  Proofs.PathP Proofs.FsGrowP Proofs.PlainRunP Proofs.LayerMapP Proofs.LayerStateP.
 Open Scope N_scope.
 Import LC LCS.
 
@@ -79,6 +79,8 @@ Definition Pdirs (c : cfgT) (f : fsT) (l : layer) : Prop :=
 Lemma probed_Pdirs c f um ld l : Pdirs c f (probed c f um ld l).
 Proof.
   unfold probed. set (l1 := set_kmounts _ _).
+  destruct (l_state l =? st_error) eqn:Ee.
+  { left. apply N.eqb_eq in Ee. change (l_state l1) with (l_state l). now rewrite Ee. }
   destruct (is_dir f (build_path c l)) eqn:E1; cbn [negb]; [|left; reflexivity].
   destruct (match l_base l with [] => false | _ => true end
             && (negb (is_dir f (work_path c l)) || negb (is_dir f (upper_path c l)))) eqn:E2;
@@ -101,7 +103,7 @@ Proof.
   apply refresh_mounts_inv in H1 as (_ & ms & ds & Hp & ->). cbn [ld_map ld_order].
   split; [reflexivity|]. split.
   - eapply msim_trans; [|apply fold_probe_msim]. cbn [ld_map]. apply msim_map_overlain.
-  - apply fold_probe_inv; [apply probed_Pdirs|]. cbn [ld_map]. intros l Hin.
+  - apply fold_probe_inv; [intros ? ? _; apply probed_Pdirs|]. cbn [ld_map]. intros l Hin.
     apply in_map_iff in Hin as (l0 & <- & Hin). left.
     apply read_layer_files_facts in Hin as [Hs _]. exact Hs.
 Qed.
@@ -220,6 +222,26 @@ Proof.
   split; [reflexivity|]. split; [apply msim_st_map_overlain|]. split; [reflexivity|now rewrite Hp].
 Qed.
 
+(* the import loop of mount_one, named (convertible to the model's local fix) *)
+Definition mount_loop e (c : cfgT) : list xmount -> ldefs -> M ldefs :=
+  fix go (xs : list xmount) (ld : ldefs) : M ldefs :=
+    match xs with
+    | [] => ret ld
+    | x :: r =>
+      match get_mount (pr_mounts (ld_probe ld)) (x_mount x) with
+      | Some mnt =>
+        if source_is_expected (pr_devs (ld_probe ld)) mnt (x_source x) then go r ld else fail
+      | None =>
+        f <- get_fs ;;
+        (if exists_ f (x_source x) then ret tt
+         else if in_any_layer_dir 64 (c_layers c) (x_source x) then fs_mkdir e (x_source x)
+         else fail) ;;;
+        fs_mount e (x_source x) (x_mount x) (x_fstype x) [] ;;;
+        ld' <- refresh_mounts c ld ;;
+        go r ld'
+      end
+    end.
+
 Lemma mount_loop_msim_st e c xs : forall ld s ld' s',
   mount_loop e c xs ld s = (Ret ld', s') -> msim_st (ld_map ld) (ld_map ld').
 Proof.
@@ -240,16 +262,21 @@ Lemma mount_one_inv e c ld name s ld' s' : mount_one e c ld name s = (Ret ld', s
   /\ ld' = set_layer ld1 (find_layerstate c (w_fs (s_w s')) ld1 l1).
 Proof.
   unfold mount_one. destruct (lm_get (ld_map ld) name) as [l|]; [|discriminate].
-  intros H. apply bind_inv in H as (u0 & s0 & H0 & H). apply bind_inv in H as (u1 & s1 & H1 & H).
-  destruct (expand_config_mounts c (ld_map ld) l) as [xs|]; [|discriminate].
+  intros H. apply bind_inv in H as (u0 & s0 & H0 & H). apply bind_inv in H as (lda & s1 & H1 & H).
+  assert (Ha : msim_st (ld_map ld) (ld_map lda)).
+  { destruct (l_base l) as [|b0 br]; [apply ret_inv in H1 as [-> _]; apply msim_st_refl|].
+    destruct (get_mount _ (build_path c l)); [apply ret_inv in H1 as [-> _]; apply msim_st_refl|].
+    destruct (lm_get (ld_map ld) (b0 :: br)); [|discriminate].
+    apply bind_inv in H1 as (u & sx & _ & H1). now apply refresh_mounts_msim_st in H1 as (_ & Hm & _). }
+  destruct (expand_config_mounts c (ld_map lda) l) as [xs|]; [|discriminate].
   apply bind_inv in H as (ld0 & s2 & H2 & H).
-  change (mount_loop e c xs ld s1 = (Ret ld0, s2)) in H2. apply mount_loop_msim_st in H2.
+  change (mount_loop e c xs lda s1 = (Ret ld0, s2)) in H2. apply mount_loop_msim_st in H2.
   apply bind_inv in H as (ld1 & s3 & H3 & H). apply refresh_mounts_msim_st in H3 as (-> & Hm & _ & Hp).
   apply bind_inv in H as (f & s4 & H4 & H). apply get_fs_inv in H4 as [-> ->].
   destruct (lm_get (ld_map ld1) name) as [l1|] eqn:E1; [|discriminate].
   apply bind_inv in H as (u5 & s5 & H5 & H). apply guard_inv in H5 as [Hg ->].
   apply ret_inv in H as [-> ->]. exists ld1, l1.
-  split; [eapply msim_st_trans; eassumption|]. split; [exact E1|]. split; [exact Hp|].
+  split; [eapply msim_st_trans; [exact Ha|eapply msim_st_trans; eassumption]|]. split; [exact E1|]. split; [exact Hp|].
   split; [now apply negb_true_iff in Hg|reflexivity].
 Qed.
 
